@@ -91,14 +91,14 @@ type lprofile struct {
 }
 
 var lprofiles = map[string]*lprofile{
-	"C01": {prop: "C01", qmax: 0, quickCases: 1500, thorCases: 30000, raceCases: 400},
-	"C02": {prop: "C02", runBias: true, noNone: false, qmax: 0, quickCases: 1500, thorCases: 30000},
-	"C03": {prop: "C03", onlyCompl: true, qmax: 3000, quickCases: 1200, thorCases: 24000, raceCases: 300},
-	"C09": {prop: "C09", noNone: true, qmax: 0, quickCases: 1500, thorCases: 30000},
-	"C10": {prop: "C10", qmax: 3000, quickCases: 1000, thorCases: 20000, raceCases: 400, overLimit: true},
-	"C13": {prop: "C13", qmax: 2000, quickCases: 1000, thorCases: 20000, overLimit: true},
-	"C14": {prop: "C14", kinds: []string{"i8", "i16", "i32", "i64"}, qmax: 1500, quickCases: 1600, thorCases: 30000, raceCases: 200},
-	"C18": {prop: "C18", qmax: 0, quickCases: 1500, thorCases: 60000},
+	"C01": {prop: "C01", qmax: 0, quickCases: 1500, thorCases: 10000, raceCases: 400},
+	"C02": {prop: "C02", runBias: true, noNone: false, qmax: 0, quickCases: 1500, thorCases: 10000},
+	"C03": {prop: "C03", onlyCompl: true, qmax: 3000, quickCases: 1200, thorCases: 8000, raceCases: 300},
+	"C09": {prop: "C09", noNone: true, qmax: 0, quickCases: 1500, thorCases: 10000},
+	"C10": {prop: "C10", qmax: 3000, quickCases: 1000, thorCases: 7000, raceCases: 400, overLimit: true},
+	"C13": {prop: "C13", qmax: 2000, quickCases: 1000, thorCases: 7000, overLimit: true},
+	"C14": {prop: "C14", kinds: []string{"i8", "i16", "i32", "i64"}, qmax: 1500, quickCases: 1600, thorCases: 10000, raceCases: 200},
+	"C18": {prop: "C18", qmax: 0, quickCases: 1500, thorCases: 20000},
 }
 
 // exhTier selects the exhaustive universes: the scan check uses a lighter set
